@@ -179,7 +179,12 @@ VALUES = [
     lambda r: r.randint(-5, 120), lambda r: r.choice([0.5, -1.0, 1e300, float("inf")]), lambda r: r.choice([True, False]),
     lambda r: None,
     lambda r: r.choice(["1", " 1", "1 ", "[1, 2]", "None", "True", "foo", "a b", "'q'", "", "{", "(1,)", "1,", "0x1f", "1e3",
-                        "{[1]: 2}", "{1: [", "-", "--1", "b'x'", "...", "1_0", "é", "\n1", "\t1", "# c"]),
+                        "{[1]: 2}", "{1: [", "-", "--1", "b'x'", "...", "1_0", "é", "\n1", "\t1", "# c",
+                        # every spelling literal_eval accepts: string prefixes in both cases, leading comment / blank /
+                        # continuation lines, signs, complex, sets, Ellipsis, nesting
+                        "r'a'", "u'a'", "R\"x\"", "U'x'", "B'x'", "rb'x'", "Rb'x'", "bR'x'", "# c\n1", "\\\n1", "#\n[1]", "+1", "-1", ".5",
+                        "-.5e3", "1+2j", "-1-2j", "{1, 2}", "{1: {2: (3,)}}", "\n\n(1,)", "'a' 'b'", "\"\"\"x\"\"\"", "0o17",
+                        "0b11", "1_000", "None ", "True\n", "~1", "1if 1else 2", "f'a'", "rf'a'", "br'x'"]),
     lambda r: [r.randint(0, 9) for _ in range(r.randint(0, 3))],
     lambda r: {r.choice("abc"): r.randint(0, 9) for _ in range(r.randint(0, 2))},
     lambda r: (r.randint(0, 9), "x"), lambda r: {1, 2}, lambda r: b"by", lambda r: 2j,
@@ -198,7 +203,7 @@ TEMPLATES_A = [
     "{% if false %}{% block c %}{{ x }}{% endblock %}{% endif %}{{ self.c() }}", "{% extends 'p2' %}{% block b %}{{ x }}{% endblock %}",
     "{% macro m() %}{{ x }}{% endmacro %}{{ m() }}", "{% include 'inc' %}", "{% import 'lib' as l %}{{ l.v }}", "{{ x ~ y }}", "{{ x }}\n", "-{{ x }}", "{{ (x, y) }}", "{{ x.v }}",
 ]
-FIXED_TEXTS = ["{[1]: 2}", "{ {} }", "{ {1: 2}: 3 }", "{[]}", "-" * 3000 + "1", "not " * 2000 + "1", "1" + "+1j" * 2500,
+FIXED_TEXTS = ["r'a'", "U'x'", "rb'x'", "Rb'x'", "# c\n1", "\\\n1", "{1, 2}", "...", "-1", "+1", ".5", "1+2j", "{[1]: 2}", "{ {} }", "{ {1: 2}: 3 }", "{[]}", "-" * 3000 + "1", "not " * 2000 + "1", "1" + "+1j" * 2500,
                "[" * 60 + "]" * 60, "1\x00", "9" * 4400, "'" + "a" * 10, "1 if 1 else 2", "f'{1}'", "__import__('os')"]
 import collections
 import enum
